@@ -24,9 +24,13 @@ type c05 struct {
 	fID                                     FieldID
 	fLocation                               FieldID
 	lockID                                  string
+	idType                                  types.Type
+	reachMemo                               map[*ssa.Function][2]map[*ssa.Function]bool
+	reachLoop                               map[*ssa.Function]bool // functions from which the scheduler loop is reached
+	run                                     *c05Flow               // running/claimed flow (ownership rules)
 
-	sched     *ssa.Function          // the scheduler loop (callee of the go statement in Start)
-	schedOnly map[*ssa.Function]bool // sched + helpers only reachable from it
+	sched     *ssa.Function          // the scheduler loop: the function whose select receives from the stop channel
+	schedOnly map[*ssa.Function]bool // functions executed (also) on the scheduler goroutine: where the loop's constructs are looked for
 	funcs     []*ssa.Function        // functions of the cron package
 	sites     map[*ssa.Function][]ssa.CallInstruction
 	addrTaken map[*ssa.Function]bool
@@ -54,9 +58,49 @@ func c05FieldExists(n *types.Named, name string) bool {
 	return false
 }
 
+// c05PickField resolves a struct field by ROLE: the fields satisfying pred;
+// if several do, the name hint decides; none or still ambiguous => "".
+func c05PickField(st *types.Struct, hint string, pred func(f *types.Var) bool) string {
+	var cands []string
+	for i := 0; i < st.NumFields(); i++ {
+		if pred(st.Field(i)) {
+			cands = append(cands, st.Field(i).Name())
+		}
+	}
+	if len(cands) == 1 {
+		return cands[0]
+	}
+	for _, c := range cands {
+		if c == hint {
+			return c
+		}
+	}
+	return ""
+}
+
+func c05HasMethods(t types.Type, names ...string) bool {
+	ms := types.NewMethodSet(types.NewPointer(deref(t)))
+	for _, n := range names {
+		found := false
+		for i := 0; i < ms.Len(); i++ {
+			if ms.At(i).Obj().Name() == n {
+				found = true
+			}
+		}
+		if !found {
+			return false
+		}
+	}
+	return true
+}
+
 // newC05Base resolves the type anchors of package rel (import path pkgPath)
 // and the call-site tables; it is shared by the repo check and the fixture.
-func newC05Base(p *Prog, r *Report, pkgPath, rel string, cronFields []string) *c05 {
+// The exported types Cron and Entry (and Entry's exported fields) are stable
+// anchors; Cron's unexported fields are resolved by role (type / method set),
+// their current names being only a tie-break hint. need lists the roles that
+// must resolve (others are left empty).
+func newC05Base(p *Prog, r *Report, pkgPath, rel string, need []string) *c05 {
 	a := &c05{p: p, r: r, pkg: pkgPath,
 		clockMemo: map[ssa.Value]int{}, storeMemo: map[string]map[*ssa.Function]bool{},
 		starters: map[*ssa.Function]int{}, actMemo: map[string]uint64{}, actActive: map[string]bool{},
@@ -65,21 +109,86 @@ func newC05Base(p *Prog, r *Report, pkgPath, rel string, cronFields []string) *c
 	cronT := p.Named(rel, "Cron")
 	entryT := p.Named(rel, "Entry")
 	ct, et := a.pkg+".Cron", a.pkg+".Entry"
-	for _, f := range cronFields {
-		if !c05FieldExists(cronT, f) {
-			undecided("anchor field cron.Cron.%s no longer resolves", f)
-		}
-	}
 	for _, f := range []string{"ID", "Schedule", "Next", "Prev", "WrappedJob", "Job"} {
 		if !c05FieldExists(entryT, f) {
 			undecided("anchor field cron.Entry.%s no longer resolves", f)
 		}
 	}
-	a.fEntries, a.fRunning, a.fJobWaiter = FieldID{ct, "entries"}, FieldID{ct, "running"}, FieldID{ct, "jobWaiter"}
-	a.fStop, a.fAdd, a.fRemove, a.fSnapshot = FieldID{ct, "stop"}, FieldID{ct, "add"}, FieldID{ct, "remove"}, FieldID{ct, "snapshot"}
+	cst, _ := cronT.Underlying().(*types.Struct)
+	est, _ := entryT.Underlying().(*types.Struct)
+	if cst == nil || est == nil {
+		undecided("cron.Cron / cron.Entry are no longer struct types")
+	}
+	var idT types.Type
+	for i := 0; i < est.NumFields(); i++ {
+		if est.Field(i).Name() == "ID" {
+			idT = est.Field(i).Type()
+		}
+	}
+	isEntryPtr := func(t types.Type) bool {
+		pt, ok := t.Underlying().(*types.Pointer)
+		return ok && types.Identical(pt.Elem(), entryT)
+	}
+	chanElem := func(t types.Type) types.Type {
+		if ch, ok := t.Underlying().(*types.Chan); ok {
+			return ch.Elem()
+		}
+		return nil
+	}
+	roles := map[string]string{
+		"entries": c05PickField(cst, "entries", func(f *types.Var) bool {
+			sl, ok := f.Type().Underlying().(*types.Slice)
+			return ok && isEntryPtr(sl.Elem())
+		}),
+		"running": c05PickField(cst, "running", func(f *types.Var) bool {
+			b, ok := f.Type().Underlying().(*types.Basic)
+			return ok && b.Kind() == types.Bool
+		}),
+		"runningMu": c05PickField(cst, "runningMu", func(f *types.Var) bool {
+			k := namedKey(f.Type())
+			return k == "sync.Mutex" || k == "sync.RWMutex"
+		}),
+		"jobWaiter": c05PickField(cst, "jobWaiter", func(f *types.Var) bool {
+			if _, isIface := f.Type().Underlying().(*types.Interface); isIface {
+				return false
+			}
+			return c05HasMethods(f.Type(), "Add", "Done", "Wait")
+		}),
+		"location": c05PickField(cst, "location", func(f *types.Var) bool {
+			return namedKey(f.Type()) == "time.Location"
+		}),
+		"add": c05PickField(cst, "add", func(f *types.Var) bool {
+			e := chanElem(f.Type())
+			return e != nil && isEntryPtr(e)
+		}),
+		"remove": c05PickField(cst, "remove", func(f *types.Var) bool {
+			e := chanElem(f.Type())
+			return e != nil && idT != nil && types.Identical(e, idT)
+		}),
+		"snapshot": c05PickField(cst, "snapshot", func(f *types.Var) bool {
+			e := chanElem(f.Type())
+			return e != nil && chanElem(e) != nil
+		}),
+		"stop": c05PickField(cst, "stop", func(f *types.Var) bool {
+			e := chanElem(f.Type())
+			if e == nil {
+				return false
+			}
+			s, ok := e.Underlying().(*types.Struct)
+			return ok && s.NumFields() == 0
+		}),
+	}
+	for _, n := range need {
+		if roles[n] == "" {
+			undecided("cannot resolve the field of cron.Cron playing the role %q (by type/method set, then by name)", n)
+		}
+	}
+	a.fEntries, a.fRunning, a.fJobWaiter = FieldID{ct, roles["entries"]}, FieldID{ct, roles["running"]}, FieldID{ct, roles["jobWaiter"]}
+	a.fStop, a.fAdd, a.fRemove, a.fSnapshot = FieldID{ct, roles["stop"]}, FieldID{ct, roles["add"]}, FieldID{ct, roles["remove"]}, FieldID{ct, roles["snapshot"]}
 	a.fNext, a.fPrev, a.fSchedule, a.fWrapped, a.fJob, a.fID = FieldID{et, "Next"}, FieldID{et, "Prev"}, FieldID{et, "Schedule"}, FieldID{et, "WrappedJob"}, FieldID{et, "Job"}, FieldID{et, "ID"}
-	a.lockID = ct + ".runningMu"
-	a.fLocation = FieldID{ct, "location"}
+	a.lockID = ct + "." + roles["runningMu"]
+	a.fLocation = FieldID{ct, roles["location"]}
+	a.idType = idT
 	a.funcs = p.FuncsOfPkg(rel)
 
 	// call sites / address-taken (within the whole module)
@@ -122,49 +231,105 @@ func newC05Base(p *Prog, r *Report, pkgPath, rel string, cronFields []string) *c
 	return a
 }
 
+// callees: same-package functions reachable from fn through static calls
+// (and, if followGo, go statements), fn included.
+func (a *c05) reachFrom(fn *ssa.Function, followGo bool) map[*ssa.Function]bool {
+	if a.reachMemo == nil {
+		a.reachMemo = map[*ssa.Function][2]map[*ssa.Function]bool{}
+	}
+	mi := 0
+	if followGo {
+		mi = 1
+	}
+	if m := a.reachMemo[fn][mi]; m != nil {
+		return m
+	}
+	out := map[*ssa.Function]bool{}
+	defer func() {
+		e := a.reachMemo[fn]
+		e[mi] = out
+		a.reachMemo[fn] = e
+	}()
+	var walk func(f *ssa.Function)
+	walk = func(f *ssa.Function) {
+		if out[f] {
+			return
+		}
+		out[f] = true
+		allInstrs(f, func(in ssa.Instruction) {
+			ci, ok := in.(ssa.CallInstruction)
+			if !ok {
+				return
+			}
+			if _, isGo := in.(*ssa.Go); isGo && !followGo {
+				return
+			}
+			if h := staticCallee(ci); h != nil && a.p.funcSet[h] && h.Pkg == fn.Pkg {
+				walk(h)
+			}
+		})
+	}
+	walk(fn)
+	return out
+}
+
 func newC05(c *Ctx) *c05 {
 	p := c.P
 	a := newC05Base(p, c.R, p.ModPath+"/cron", "cron", []string{"entries", "running", "runningMu", "jobWaiter", "stop", "add", "remove", "snapshot", "location"})
 	a.c = c
 	a.e = c.Locks()
-	// scheduler function: what Start spawns
-	start := p.Func("cron", "Cron.Start")
-	allInstrs(start, func(in ssa.Instruction) {
-		if g, ok := in.(*ssa.Go); ok {
-			if f := staticCallee(g); f != nil && p.funcSet[f] {
-				a.sched = f
+	// The scheduler loop is identified by its role: the function whose blocking
+	// select receives from the stop channel.
+	for _, fn := range a.funcs {
+		allInstrs(fn, func(in ssa.Instruction) {
+			sel, ok := in.(*ssa.Select)
+			if !ok || !sel.Blocking {
+				return
 			}
-		}
-	})
+			for _, st := range sel.States {
+				if st.Dir == types.RecvOnly {
+					if _, ok := c05LoadOf(st.Chan, a.fStop); ok {
+						if a.sched != nil && a.sched != fn {
+							undecided("two functions select on the stop channel (%s, %s); scheduler loop ambiguous", a.name(a.sched), a.name(fn))
+						}
+						a.sched = fn
+					}
+				}
+			}
+		})
+	}
 	if a.sched == nil {
-		undecided("cron.Cron.Start no longer spawns a statically resolvable scheduler goroutine (anchor for the scheduler loop lost)")
+		undecided("no function of package cron has a blocking select receiving from Cron's stop channel (anchor for the scheduler loop lost)")
 	}
 	if a.addrTaken[a.sched] {
 		undecided("the scheduler function %s is used as a value; its invocation sites cannot be enumerated", FuncName(p, a.sched))
 	}
-	// helpers only reachable from the scheduler
-	a.schedOnly = map[*ssa.Function]bool{a.sched: true}
-	for changed := true; changed; {
-		changed = false
-		for _, fn := range a.funcs {
-			if a.schedOnly[fn] || isExportedFunc(fn) || a.addrTaken[fn] || len(a.sites[fn]) == 0 {
-				continue
+	// reachLoop: functions from which the loop is reached (through calls and go)
+	a.reachLoop = map[*ssa.Function]bool{}
+	for _, fn := range a.funcs {
+		if a.reachFrom(fn, true)[a.sched] {
+			a.reachLoop[fn] = true
+		}
+	}
+	// scheduler-side functions (for LOCATING constructs, not for safety
+	// decisions): the loop, goroutine bodies leading to it, and everything they call.
+	a.schedOnly = map[*ssa.Function]bool{}
+	for f := range a.reachFrom(a.sched, false) {
+		a.schedOnly[f] = true
+	}
+	for _, fn := range a.funcs {
+		if !a.reachLoop[fn] || isExportedFunc(fn) || a.addrTaken[fn] {
+			continue
+		}
+		goOnly := len(a.sites[fn]) > 0
+		for _, s := range a.sites[fn] {
+			if _, isGo := s.(*ssa.Go); !isGo && !a.schedOnly[s.Parent()] {
+				goOnly = false
 			}
-			if fn.Parent() != nil && !a.schedOnly[fn.Parent()] {
-				continue
-			}
-			all := true
-			for _, s := range a.sites[fn] {
-				if !a.schedOnly[s.Parent()] {
-					all = false
-				}
-				if _, isGo := s.(*ssa.Go); isGo {
-					all = false // a separate goroutine is not the scheduler
-				}
-			}
-			if all {
-				a.schedOnly[fn] = true
-				changed = true
+		}
+		if goOnly {
+			for f := range a.reachFrom(fn, false) {
+				a.schedOnly[f] = true
 			}
 		}
 	}
@@ -273,15 +438,112 @@ func (a *c05) timerChan(v ssa.Value, seen map[ssa.Value]bool) bool {
 		if (pp == "k8s.io/utils/clock" && !isFn && (obj.Name() == "C" || obj.Name() == "After")) || (pp == "time" && isFn && obj.Name() == "After") {
 			return true
 		}
+		// a same-package helper returning the channel
+		if rets := a.returnsOf(x, 0); rets != nil && x.Call.Signature().Results().Len() == 1 {
+			for _, rv := range rets {
+				if !a.timerChan(rv, seen) {
+					return false
+				}
+			}
+			return true
+		}
+	case *ssa.Extract:
+		if call, ok := x.Tuple.(*ssa.Call); ok {
+			if rets := a.returnsOf(call, x.Index); rets != nil {
+				for _, rv := range rets {
+					if !a.timerChan(rv, seen) {
+						return false
+					}
+				}
+				return true
+			}
+		}
+	case *ssa.Parameter:
+		acts := a.actualsOf(x)
+		if acts == nil {
+			return false
+		}
+		for _, av := range acts {
+			if !a.timerChan(av, seen) {
+				return false
+			}
+		}
+		return true
 	case *ssa.UnOp:
 		if x.Op == token.MUL {
 			if fa, ok := x.X.(*ssa.FieldAddr); ok {
 				id := fieldIDOfAddr(fa)
 				return id.Type == "time.Timer" && id.Field == "C"
 			}
+			if cell, ok := x.X.(*ssa.Alloc); ok {
+				if vals := c05CellStores(cell); vals != nil {
+					for _, sv := range vals {
+						if !a.timerChan(sv, seen) {
+							return false
+						}
+					}
+					return true
+				}
+			}
 		}
 	}
 	return false
+}
+
+// returnsOf: the values result #idx of a static call to a module function can
+// take (one per return statement); nil when the callee is unknown.
+func (a *c05) returnsOf(call *ssa.Call, idx int) []ssa.Value {
+	if call.Call.IsInvoke() {
+		return nil
+	}
+	h := staticCallee(call)
+	if h == nil || !a.p.funcSet[h] || len(h.Blocks) == 0 {
+		return nil
+	}
+	var out []ssa.Value
+	allInstrs(h, func(in ssa.Instruction) {
+		if ret, ok := in.(*ssa.Return); ok && idx < len(ret.Results) && (len(in.Block().Preds) > 0 || in.Block().Index == 0) {
+			out = append(out, ret.Results[idx])
+		}
+	})
+	return out
+}
+
+// actualsOf: the arguments bound to parameter par at all its call sites; nil
+// when they cannot be enumerated (exported / address-taken / no site).
+func (a *c05) actualsOf(par *ssa.Parameter) []ssa.Value {
+	fn := par.Parent()
+	if isExportedFunc(fn) || a.addrTaken[fn] || len(a.sites[fn]) == 0 {
+		return nil
+	}
+	idx := c05ParamIndex(par)
+	var out []ssa.Value
+	for _, s := range a.sites[fn] {
+		args := s.Common().Args
+		if idx < 0 || idx >= len(args) {
+			return nil
+		}
+		out = append(out, args[idx])
+	}
+	return out
+}
+
+// c05CellStores: all values stored into a local cell that is only stored/loaded; nil otherwise.
+func c05CellStores(cell *ssa.Alloc) []ssa.Value {
+	var out []ssa.Value
+	for _, r := range refs(cell) {
+		switch s := r.(type) {
+		case *ssa.Store:
+			if s.Addr != cell {
+				return nil
+			}
+			out = append(out, s.Val)
+		case *ssa.UnOp, *ssa.DebugRef:
+		default:
+			return nil
+		}
+	}
+	return out
 }
 
 // clockDerived: v denotes an instant the clock has already reached when v is
@@ -334,6 +596,16 @@ func (a *c05) clockDerived1(v ssa.Value) bool {
 		}
 		if call, ok := x.Tuple.(*ssa.UnOp); ok && call.Op == token.ARROW && x.Index == 0 {
 			return a.timerChan(call.X, map[ssa.Value]bool{})
+		}
+		if call, ok := x.Tuple.(*ssa.Call); ok {
+			if rets := a.returnsOf(call, x.Index); rets != nil {
+				for _, rv := range rets {
+					if !a.clockDerived(rv) {
+						return false
+					}
+				}
+				return true
+			}
 		}
 		return false
 	case *ssa.UnOp:
@@ -522,4 +794,118 @@ func c05SameValue(x, y ssa.Value) bool {
 		return cx.Value.Kind() == cy.Value.Kind() && constant.Compare(cx.Value, token.EQL, cy.Value)
 	}
 	return false
+}
+
+// c05SyncHigherOrder: library packages whose functions invoke the function
+// values they are given synchronously, before returning (assumption).
+var c05SyncHigherOrder = map[string]bool{"sort": true, "slices": true}
+
+// syncCallbacks: same-package functions passed as arguments to a call of a
+// synchronous higher-order library function.
+func (a *c05) syncCallbacks(ci ssa.CallInstruction) []*ssa.Function {
+	if _, isCall := ci.(*ssa.Call); !isCall {
+		return nil
+	}
+	obj := calleeObj(ci)
+	if obj == nil || obj.Pkg() == nil || !c05SyncHigherOrder[obj.Pkg().Path()] {
+		return nil
+	}
+	var out []*ssa.Function
+	for _, arg := range ci.Common().Args {
+		switch x := arg.(type) {
+		case *ssa.MakeClosure:
+			if fn, ok := x.Fn.(*ssa.Function); ok && a.p.funcSet[fn] {
+				out = append(out, fn)
+			}
+		case *ssa.Function:
+			if a.p.funcSet[x] {
+				out = append(out, x)
+			}
+		}
+	}
+	return out
+}
+
+// syncCallbackOnly: every use of fn as a value is as such a callback.
+func (a *c05) syncCallbackOnly(fn *ssa.Function) bool {
+	par := fn.Parent()
+	if par == nil || len(a.sites[fn]) > 0 {
+		return false
+	}
+	n, ok := 0, true
+	allInstrs(par, func(in ssa.Instruction) {
+		mc, isMC := in.(*ssa.MakeClosure)
+		if !isMC || mc.Fn != fn {
+			return
+		}
+		for _, u := range refs(mc) {
+			if _, isDbg := u.(*ssa.DebugRef); isDbg {
+				continue
+			}
+			ci, isCall := u.(ssa.CallInstruction)
+			if !isCall || len(a.syncCallbacks(ci)) == 0 {
+				ok = false
+			}
+			n++
+		}
+	})
+	return ok && n > 0
+}
+
+// c05Atom: a boolean SSA value known to have the given truth.
+type c05Atom struct {
+	v  ssa.Value
+	tv bool
+}
+
+// c05ExpandCond: the atomic facts implied by cond having truth tv. go/ssa
+// lowers `x && y` / `x || y` used as a VALUE (e.g. a tagless switch case) to a
+// phi [false, y] / [true, y] whose constant edge comes straight from the block
+// testing x; a true `&&` implies both operands, a false `||` refutes both.
+func c05ExpandCond(cond ssa.Value, tv bool, depth int) []c05Atom {
+	for {
+		if u, ok := cond.(*ssa.UnOp); ok && u.Op == token.NOT {
+			cond, tv = u.X, !tv
+			continue
+		}
+		break
+	}
+	phi, ok := cond.(*ssa.Phi)
+	if !ok || depth > 4 || len(phi.Edges) != 2 {
+		return []c05Atom{{cond, tv}}
+	}
+	for i, ed := range phi.Edges {
+		k, isK := ed.(*ssa.Const)
+		if !isK || k.Value == nil || k.Value.Kind() != constant.Bool {
+			continue
+		}
+		kv := constant.BoolVal(k.Value)
+		if kv == tv {
+			continue // `false` edge of && while asking for false: nothing implied
+		}
+		// the phi is !kv only through the other edge; the block of the constant
+		// edge tested x and came here directly
+		other := phi.Edges[1-i]
+		pred := phi.Block().Preds[i]
+		out := c05ExpandCond(other, tv, depth+1)
+		if len(pred.Instrs) > 0 {
+			if ifi, ok := pred.Instrs[len(pred.Instrs)-1].(*ssa.If); ok && len(pred.Succs) == 2 && pred.Succs[0] != pred.Succs[1] {
+				// reaching the phi with the constant means x had the truth of that edge;
+				// not taking the constant means the opposite
+				edgeTruth := pred.Succs[0] == phi.Block()
+				out = append(out, c05ExpandCond(ifi.Cond, !edgeTruth, depth+1)...)
+			}
+		}
+		return out
+	}
+	return []c05Atom{{cond, tv}}
+}
+
+// c05DomAtoms: atomic boolean facts that hold on every path to block b.
+func c05DomAtoms(b *ssa.BasicBlock) []c05Atom {
+	var out []c05Atom
+	for _, dc := range domConds(b) {
+		out = append(out, c05ExpandCond(dc.If.Cond, dc.Branch, 0)...)
+	}
+	return out
 }
